@@ -346,7 +346,7 @@ product:
 	h.Col.Exhaustive("config x credential x fault x order (192 scenarios)", complete)
 
 	if h.Thorough() {
-		h.Rapid("bursts", h.N(0, 600)/h.NShards+1, func(rt *rapid.T) {
+		h.Rapid("bursts", h.N(0, 6000)/h.NShards+1, func(rt *rapid.T) {
 			c := c09Case{
 				Config: rapid.SampledFrom(configs).Draw(rt, "config"), Cred: rapid.SampledFrom(creds).Draw(rt, "cred"),
 				Fault: rapid.SampledFrom(faults).Draw(rt, "fault"), Order: rapid.SampledFrom(orders).Draw(rt, "order"), Repeat: rapid.IntRange(2, 5).Draw(rt, "repeat"),
